@@ -35,11 +35,20 @@ class Case:
     def __init__(self, tops, how, target, nsmap=None, custom=None, ext=None):
         self.tops, self.how, self.target = tops, how, list(target)
         self.nsmap, self.custom, self.ext = nsmap, custom, ext
+        self.live_ns = None        # optional: one dict object the caller keeps re-using (refilled before every call)
         self.soup = trees.materialise(tops, how)
         self.top_obj, self.target_obj = pick_target(self.soup, self.target)
         self.top_sn, self.idmap = trees.snapshot(self.top_obj)
         self.is_xml = trees.is_xml_top(self.top_obj)
         self.target_sn = self.idmap[id(self.target_obj)]
+
+    def ns_arg(self):
+        """The namespaces argument handed to soupsieve: the map itself, or the caller's long-lived dict refilled with it."""
+        if self.live_ns is None or not isinstance(self.nsmap, dict):
+            return self.nsmap
+        self.live_ns.clear()
+        self.live_ns.update(self.nsmap)
+        return self.live_ns
 
     def ref(self, custom_ast=None):
         return refsel.Ref(self.top_sn, self.target_sn, self.is_xml, self.nsmap, custom_ast or {}, self.ext)
@@ -71,7 +80,7 @@ def compare_select(sv, case, ast, text=None, api=None, budget=20.0, match_law=Fa
     text = text if text is not None else canon
     ref = case.ref()
     exp, unspec = ref.select(ast, case.target_sn)
-    call = api or (lambda: sv.select(text, case.target_obj, namespaces=case.nsmap))
+    call = api or (lambda: sv.select(text, case.target_obj, namespaces=case.ns_arg()))
     st, got = monitors.guarded_call(call, budget=budget)
     info = {'text': text, 'n_exp': len(exp), 'n_all': len(ref.desc(case.target_sn)), 'unspec': unspec}
     info['nontrivial'] = bool(exp) and len(exp) < info['n_all']
@@ -85,7 +94,7 @@ def compare_select(sv, case, ast, text=None, api=None, budget=20.0, match_law=Fa
         # a CSS-insignificant respelling must compile to the same structure as the canonical rendering
         try:
             kw = dict(match_kw or {})
-            if sv.compile(text, case.nsmap, **kw).selectors != sv.compile(canon, case.nsmap, **kw).selectors:
+            if sv.compile(text, case.ns_arg(), **kw).selectors != sv.compile(canon, case.ns_arg(), **kw).selectors:
                 info['got'] = 'structure of the respelling differs'
                 info['exp'] = 'canonical: %s' % canon[:200]
                 return 'DISAGREE', info
@@ -100,7 +109,7 @@ def compare_select(sv, case, ast, text=None, api=None, budget=20.0, match_law=Fa
         for e in case.target_obj.descendants:
             if not isinstance(e, bs4.Tag):
                 continue
-            st2, m = monitors.guarded_call(lambda: sv.match(text, e, namespaces=case.nsmap, **(match_kw or {})), budget=budget)
+            st2, m = monitors.guarded_call(lambda: sv.match(text, e, namespaces=case.ns_arg(), **(match_kw or {})), budget=budget)
             if st2 != 'ok':
                 break
             if bool(m) != (id(e) in members):
